@@ -565,7 +565,7 @@ func byteArraysSections(tier string) []section {
 	addAll(2, lens5, 2, false)
 	addAll(3, lens5, 2, true)
 	if tier == "thorough" {
-		addAll(3, []int{0, 1, 255, 256}, 2, false)
+		addAll(3, []int{0, 1, 256}, 2, false)
 		addAll(4, []int{0, 1, 256}, 2, true)
 	}
 	return []section{{name: "bytearrays", n: int64(len(specs)), run: func(j int64, r *kit.Result) {
@@ -835,20 +835,21 @@ func checkMap(r *kit.Result, bb, tb int, seq []uint64, probes []uint64, variant 
 		}
 		return fmt.Sprintf("layout bucketBits=%d tagBits=%d, entries in write order %v, map at offset %d", bb, tb, s, offset)
 	}
+	b := encoding.NewUint64MapBuilder(bb, tb)
+	// classify by the layout the builder really uses (it may legitimately adjust the requested one)
+	abb, atb := b.Layout.BucketBits, b.Layout.TagBits
 	anyLossy := false
 	for _, id := range seq {
-		if lossy(bb, tb, id) {
+		if lossy(abb, atb, id) {
 			anyLossy = true
 		}
 	}
 	class := func(q uint64, c string) string {
-		if anyLossy || lossy(bb, tb, q) {
+		if anyLossy || lossy(abb, atb, q) {
 			return "Uint64Map:high-id-bits-lost(bucketBits<tagBits)"
 		}
 		return "Uint64Map:" + c
 	}
-
-	b := encoding.NewUint64MapBuilder(bb, tb)
 	// reservations in the opposite order of the writes
 	for i := len(order) - 1; i >= 0; i-- {
 		e := es[order[i]]
@@ -1028,7 +1029,7 @@ func mapSections(tier string) []section {
 	ids := []uint64{0, 1, 3, 63, 64, 1 << 32, 1 << 62, 1 << 63, 1<<63 | 1, ^uint64(0)}
 	if tier == "thorough" {
 		maxBB = 8
-		ids = append(ids, 2, 65, 127, 128, 1<<61, 1<<63-1)
+		ids = append(ids, 2, 128, 1<<61, 1<<63-1)
 	}
 	type layout struct{ bb, tb int }
 	var layouts []layout
@@ -1114,8 +1115,9 @@ func main() {
 		// EachItem hands every bucket from the caller to its reader goroutine over an
 		// unbuffered channel; with one P per worker process that hand-off is a
 		// goroutine switch instead of a futex wake-up (10x faster, same semantics).
-		WorkerEnv:     []string{"GOMAXPROCS=1", "GOGC=1000"},
-		QuickDeadline: 240 * time.Second, // ~15 s on 16 idle cores; the cap only matters on a loaded machine
+		WorkerEnv:        []string{"GOMAXPROCS=1", "GOGC=1000"},
+		QuickDeadline:    240 * time.Second, // ~15 s on 16 idle cores; the caps only matter on a loaded machine
+		ThoroughDeadline: 25 * time.Minute,
 		Build: func(tier string) (kit.Space, string) {
 			b64 := boundary64()
 			alph := map[int][][]uint64{
@@ -1160,11 +1162,11 @@ func main() {
 				"byte arrays <=4 items x lengths {0,1,255,256,65536} x all reserve/write orders (two-buffer call: crossed orders for 4 items in the quick tier; two-call mode: full product for <=2 items%s, crossed orders for 3 items%s); "+
 				"string alphabet %d strings x multiplicity 0..3; uint64 map layouts bucket bits 1..%d x tag bits 0..3, ID alphabet %d values, sequences len<=4; [%s]",
 				tier, len(b64), len(alph[3][0]), len(alph[4][0]),
-				map[bool]string{false: "", true: " and for 3 items over lengths {0,1,255,256}"}[tier == "thorough"],
+				map[bool]string{false: "", true: " and for 3 items over lengths {0,1,256}"}[tier == "thorough"],
 				map[bool]string{false: "", true: " and 4 items over lengths {0,1,256}"}[tier == "thorough"],
 				map[bool]int{false: 6, true: 8}[tier == "thorough"],
 				map[bool]int{false: 6, true: 8}[tier == "thorough"],
-				map[bool]int{false: 10, true: 16}[tier == "thorough"],
+				map[bool]int{false: 10, true: 14}[tier == "thorough"],
 				strings.Join(parts, ", "))
 			return sp, bound
 		},
